@@ -217,11 +217,65 @@ func paramCalls(fn *ssa.Function, i int) []*ssa.Call {
 	}
 	p := fn.Params[i]
 	allInstrs(fn, func(in ssa.Instruction) {
-		if c, ok := in.(*ssa.Call); ok && !c.Call.IsInvoke() && c.Call.Value == ssa.Value(p) {
+		c, ok := in.(*ssa.Call)
+		if !ok || c.Call.IsInvoke() {
+			return
+		}
+		if c.Call.Value == ssa.Value(p) {
 			out = append(out, c)
+			return
+		}
+		// the callback handed on to a helper of the module that invokes it exactly once on each of its returning paths:
+		// the helper's call site is the invocation
+		h := c.Call.StaticCallee()
+		if h == nil || origin(h) == origin(fn) || origin(h).Pkg == nil || !strings.HasPrefix(origin(h).Pkg.Pkg.Path(), modPath) {
+			return
+		}
+		for k, a := range c.Call.Args {
+			if a == ssa.Value(p) && invokesParamOnce(origin(h), k, 0) {
+				out = append(out, c)
+			}
 		}
 	})
 	return out
+}
+
+// invokesParamOnce: every returning path of h invokes its k-th parameter exactly once (directly or by handing it to a
+// helper that does), and the parameter is used for nothing else.
+func invokesParamOnce(h *ssa.Function, k int, depth int) bool {
+	if h == nil || len(h.Blocks) == 0 || k >= len(h.Params) || depth > 3 {
+		return false
+	}
+	sites := map[ssa.Instruction]bool{}
+	for _, c := range paramCalls(h, k) {
+		sites[c] = true
+	}
+	if len(sites) == 0 {
+		return false
+	}
+	for _, u := range *h.Params[k].Referrers() {
+		if !sites[u] {
+			if _, isDbg := u.(*ssa.DebugRef); !isDbg {
+				return false
+			}
+		}
+	}
+	n := 0
+	for _, e := range CountOnPaths(h, Pt{h.Blocks[0], 0}, func(in ssa.Instruction) int {
+		if sites[in] {
+			return 1
+		}
+		return 0
+	}, nil) {
+		if _, isRet := e.Exit.(*ssa.Return); !isRet {
+			continue
+		}
+		n++
+		if e.Count != 1 {
+			return false
+		}
+	}
+	return n > 0
 }
 
 func ruleC15Once(cx *Ctx) {
@@ -461,13 +515,57 @@ func ruleC15LockPair(cx *Ctx) {
 				}
 				n++
 				key := addrKey(recvValue(in))
+				lockAddr := recvValue(in)
 				ok, w := MustFollow(in, func(x ssa.Instruction) bool {
-					return mutexOp(x, f, "Unlock") && addrKey(recvValue(x)) == key
+					return (mutexOp(x, f, "Unlock") && addrKey(recvValue(x)) == key) || releasesHandedMutex(x, f, lockAddr)
 				}, exitReturn)
 				cx.R.Check(ok, rule, name, fmt.Sprintf("Lock#%d(%s)", n, fname(f)), cx.P.where(in), "the acquired mutex is released on every path to return", w...)
 			}
 		})
 	}
+}
+
+// releasesHandedMutex: x calls a helper of the package with the object that owns the locked mutex as an argument, and
+// the helper releases that parameter's mutex on every path to return (a wrapper counts as the release when all its
+// paths return with the lock released).
+func releasesHandedMutex(x ssa.Instruction, f *types.Var, lockAddr ssa.Value) bool {
+	c, ok := x.(*ssa.Call)
+	if !ok || c.Call.IsInvoke() {
+		return false
+	}
+	h := c.Call.StaticCallee()
+	fa, isFA := lockAddr.(*ssa.FieldAddr)
+	if h == nil || !isFA || origin(h).Pkg == nil || !strings.HasSuffix(origin(h).Pkg.Pkg.Path(), hmPkg) || len(origin(h).Blocks) == 0 {
+		return false
+	}
+	o := origin(h)
+	// the owner of the mutex: the base of the field chain (the mutex may sit in an embedded struct)
+	base := func(v ssa.Value) ssa.Value {
+		for {
+			x, isF := v.(*ssa.FieldAddr)
+			if !isF {
+				return v
+			}
+			v = x.X
+		}
+	}
+	owner := base(fa)
+	for k, a := range c.Call.Args {
+		if k >= len(o.Params) || !(a == owner || addrKey(a) == addrKey(owner)) {
+			continue
+		}
+		prm := o.Params[k]
+		if mustPerform(o, func(y ssa.Instruction) bool {
+			if !mutexOp(y, f, "Unlock") {
+				return false
+			}
+			ya, isA := recvValue(y).(*ssa.FieldAddr)
+			return isA && base(ya) == ssa.Value(prm)
+		}, map[*ssa.Function]int{}) {
+			return true
+		}
+	}
+	return false
 }
 
 func ruleC15Publish(cx *Ctx) {
